@@ -290,6 +290,11 @@ CORPUS: list[dict] = [
     # stop during the initial delay; stop while the function runs
     {'cfg': {'interval': 1000, 'initial_delay': 3000}, 'script': [[250, 0, 'ok']], 'stop': 1000},
     {'cfg': {'interval': 1000, 'sharp': True}, 'script': [[2500, 0, 'ok'], [0, 0, 'ok']], 'stop': 1125},
+    # degenerate numbers (Python's float % has the sign of the divisor, as Z.modulo has; sleep(<=0) does not suspend)
+    {'cfg': {'idle': 0}, 'script': [[125, 0, 'ok'], [0, 0, 'ok']]},
+    {'cfg': {'idle': -500, 'interval': 1000, 'initial_delay': -5}, 'script': [[125, 0, 'ok'], [0, 0, 'ok']]},
+    {'cfg': {'interval': -1000, 'sharp': True}, 'script': [[125, 0, 'ok'], [375, 0, 'ok'], [0, 0, 'ok']]},
+    {'cfg': {'interval': -1000}, 'script': [[125, 0, 'ok'], [375, 0, 'ok'], [0, 0, 'ok']]},
 ]
 
 
